@@ -30,6 +30,26 @@ pub fn special(
             }
             Ok(vec![])
         }
+        // parse-only: "ok <n>" followed by the printed forms, or "err <start> <end> <message>"
+        // (byte offsets of the reported span)
+        "parse" | "parse-raw" => {
+            let src = _args.first().cloned().unwrap_or_default();
+            // parse-raw: data as the run time reader sees them (special forms are not lowered)
+            let parsed = if name == "parse" { steel::parser::parser::Parser::parse(&src) } else { steel::parser::parser::Parser::parse_without_lowering(&src) };
+            match parsed {
+                Ok(forms) => {
+                    let mut out = vec![format!("ok {}", forms.len())];
+                    for f in &forms {
+                        out.push(f.to_string());
+                    }
+                    Ok(out)
+                }
+                Err(e) => {
+                    let sp = e.span();
+                    Ok(vec![format!("err {} {} {}", sp.start, sp.end, e)])
+                }
+            }
+        }
         _ => Err(("Harness".into(), format!("unknown special {}", name))),
     }
 }
